@@ -216,8 +216,18 @@ func initArrayList() {
 		"remove_at",
 		func(vm *Thread, args []value.Value) (value.Value, value.Value) {
 			self := args[0].AsReference().(value.ArrayList)
-			val := args[1].AsInt()
-			return value.Nil, self.RemoveAtErr(val)
+			index, ok := value.IntToGoInt(args[1])
+			if !ok {
+				if index == -1 {
+					return value.Undefined, value.Ref(value.NewIndexOutOfRangeError(args[1].Inspect(), self.Length()))
+				}
+				return value.Undefined, value.Ref(value.NewCoerceError(value.IntClass, args[1].Class()))
+			}
+			err := self.RemoveAtErr(index)
+			if err.IsNotUndefined() {
+				return value.Undefined, err
+			}
+			return value.Nil, value.Undefined
 		},
 		DefWithParameters(1),
 	)
